@@ -191,6 +191,37 @@ def run(run):
                           'answer (or left one behind)', wit)
             break
     run.count('get_id_preemption_points', pe.points)
+    # ---- the instance's id and the class table agree, whatever the history ----
+    # (packet.id is what write() puts on the wire: a packet object asked for
+    # its id under one version of a context object and asked again after that
+    # *same* context object has been given another version - what connect()
+    # does during negotiation - answers for the current version)
+    from minecraft.networking.packets import PacketBuffer
+    from ..ref import varint as _rv
+    for k, pva, pvb, ids in pe_cases:
+        ctx = C.ConnectionContext(protocol_version=pva)
+        try:
+            p = k(context=ctx)
+            first = p.id
+            repr(p)
+            ctx.protocol_version = pvb
+            second = p.id
+            ctx.protocol_version = pva
+            third = p.id
+        except Exception as e:
+            first = second = third = repr(e)
+        run.count('instance_ids_after_context_reassignment')
+        if (first, second, third) != (ids[pva], ids[pvb], ids[pva]):
+            run.violation('instance-id/stale-after-context-reassignment',
+                          'packet.id of an instance disagrees with the class '
+                          'table after the version of its context object was '
+                          'reassigned', {'class': k.__qualname__,
+                                         'versions': (pva, pvb, pva),
+                                         'instance_ids': (first, second,
+                                                          third),
+                                         'table_ids': (ids[pva], ids[pvb],
+                                                       ids[pva])})
+            break
     if qproblems:
         run.violation('table/concurrent-queries', 'a thread querying the '
                       'tables for its version got another answer than a '
